@@ -94,6 +94,10 @@ Definition c19_rules : list rule :=
       "co_lookups__UploadLookupFile"
       "utils.IsSafePathComponent" "os.Create"
       "lookup upload: the file name is checked before the file is created";
+    mkRule "C19.lookup_upload_name_checked_before_stat"
+      "co_lookups__UploadLookupFile"
+      "utils.IsSafePathComponent" "os.Stat"
+      "lookup upload: the file name is checked before the existence probe (which follows ../ and would tell whether a file outside exists)";
     mkRule "C19.inputlookup_name_checked_before_open"
       "co_segment_aggregations__PerformInputLookup"
       "utils.IsSafePathComponent" "os.Open"
